@@ -202,7 +202,7 @@ func TestC05_Cache(t *testing.T) {
 		var past [][2]int
 		hits, deltaRepeatHit, afterUpdate, updated := 0, false, false, false
 		bigHit := false
-		mutatedRepeat := false
+		mutatedRepeat, callerEdited := false, false
 		var redo *[2]int
 		lastQ := ""
 		enabled := true
@@ -272,6 +272,20 @@ func TestC05_Cache(t *testing.T) {
 				steps = append(steps, fmt.Sprintf("search[%s](%q, opt#%d)=%d%s", variant, q, oi, len(got), map[bool]string{true: " HIT", false: ""}[wasHit]))
 				if !rankEq(a, b) {
 					t.Fatalf("cached layer answered %s, an uncached search of the current database answers %s\n query=%q options=%v hit=%v enabled=%v\n steps=%v\n db=%v", rankStr(a), rankStr(b), q, optBrief(o), wasHit, enabled, steps, gen.BriefDB(cmds, 14))
+				}
+				if rapid.Bool().Draw(t, "caller-edits-result") {
+					// the returned list belongs to the caller: it is re-sorted, re-scored and cleared here,
+					// and no later answer may show a trace of that
+					for i, j := 0, len(got)-1; i < j; i, j = i+1, j-1 {
+						got[i], got[j] = got[j], got[i]
+					}
+					for i := range got {
+						got[i].Score = -1 - float64(i)
+					}
+					if len(got) > 1 {
+						got[0].Command = got[len(got)-1].Command
+					}
+					callerEdited = true
 				}
 				key := strings.ToLower(strings.TrimSpace(q))
 				if wasHit && len(got) > 50 {
@@ -443,6 +457,9 @@ func TestC05_Cache(t *testing.T) {
 		}
 		if smallCache {
 			labels = append(labels, "small-cache")
+		}
+		if callerEdited && hits > 0 {
+			labels = append(labels, "caller-edited-results")
 		}
 		if evictedSeen {
 			labels = append(labels, "evicted-inside-layer")
